@@ -38,12 +38,12 @@ class Fact:
         self.key = unparse(node)
         self.xnode = xnode if xnode is not None else node
         self.xkey = unparse(self.xnode)
-        self.roots = roots_of(node) | roots_of(self.xnode)
+        self.roots = roots_of(self.xnode)
         self.targets = tuple(targets)   # resolved callee quals for call facts
         self.line = line
 
     def ident(self):
-        return (self.kind, self.key, self.pol)
+        return (self.kind, self.xkey, self.pol)
 
     def __hash__(self):
         return hash(self.ident())
@@ -216,25 +216,37 @@ class FunctionFlow:
         self.defs[d.did] = d
         return d
 
-    # ------------------------------------------------------------ expansion
-    def expand(self, expr: ast.AST, st: State, depth: int = 8) -> ast.AST:
-        """Replace locals (and stored attribute chains) by their unique, still-valid definition."""
-        if depth <= 0:
-            return expr
+    # ------------------------------------------------------------ expansion (SSA-style versions)
+    def token(self, name: str, st: State) -> str:
+        """Version token of a local in a state: the bare name for parameters, `x@<def>` for a unique
+        definition, `x@p<d1>_<d2>` for a merge of several definitions."""
+        ds = st.defs.get(name)
+        if not ds:
+            return name
+        if len(ds) == 1:
+            d = self.defs[next(iter(ds))]
+            return name if d.kind == "param" else f"{name}@{d.did}"
+        return f"{name}@p" + "_".join(str(x) for x in sorted(ds))
 
+    def expand(self, expr: ast.AST, st: State, depth: int = 8) -> ast.AST:
+        """Replace every local by its unique, still-valid definition, else by its version token.
+
+        The result only mentions immutable versions of locals, so a later re-binding of a name never
+        invalidates it; attribute chains stay as written (killed on stores)."""
         flow = self
 
         class T(ast.NodeTransformer):
             def visit_Name(self, n):
-                if isinstance(n.ctx, ast.Load):
+                if isinstance(n.ctx, ast.Load) and n.id in st.defs:
                     r = flow._unique_value(n.id, st)
                     if r is not None:
                         return copy.deepcopy(r)
+                    return ast.Name(id=flow.token(n.id, st), ctx=ast.Load())
                 return n
 
             def visit_Attribute(self, n):
                 d = dotted(n)
-                if d and isinstance(n.ctx, ast.Load):
+                if d and isinstance(n.ctx, ast.Load) and d in st.defs:
                     r = flow._unique_value(d, st)
                     if r is not None:
                         return copy.deepcopy(r)
@@ -257,53 +269,42 @@ class FunctionFlow:
                 return None
         return d.xvalue
 
+    _PHI = __import__("re").compile(r"^(.+)@p([0-9_]+)$")
+
     def alternatives(self, expr: ast.AST, st: State, limit: int = 48, depth: int = 6) -> list:
-        """All expansions of `expr` through every reaching definition (branch-merged locals).
-
-        Returns a list of expression ASTs; opaque definitions stay as the Name itself.
-        """
-        flow = self
-        names = []
-        for n in ast.walk(expr):
-            if isinstance(n, ast.Name) and isinstance(n.ctx, ast.Load) and n.id in st.defs:
-                ds = [self.defs[i] for i in st.defs[n.id]]
-                if any(d.kind == "assign" and d.value is not None for d in ds) and n.id not in names:
-                    names.append(n.id)
-        if not names or depth <= 0:
-            return [expr]
-        outs = [expr]
-        for nm in names:
-            ds = [self.defs[i] for i in sorted(st.defs[nm])]
-            vals = []
-            for d in ds:
-                if d.kind == "assign" and d.value is not None:
-                    dst = self.before.get(id(d.stmt))
-                    subs = self.alternatives(d.value, dst, limit, depth - 1) if dst is not None else [d.value]
-                    vals.extend(subs)
-                else:
-                    vals.append(None)
-            new = []
+        """All expansions of `expr` through every reaching definition of branch-merged locals."""
+        outs = [self.expand(expr, st)]
+        for _ in range(depth):
+            new, changed = [], False
             for o in outs:
-                for v in vals:
-                    if v is None:
-                        new.append(o)
-                        continue
+                phi = None
+                for n in ast.walk(o):
+                    if isinstance(n, ast.Name):
+                        m = self._PHI.match(n.id)
+                        if m:
+                            phi = (n.id, m.group(1), [int(x) for x in m.group(2).split("_")])
+                            break
+                if phi is None:
+                    new.append(o)
+                    continue
+                changed = True
+                tok, nm, dids = phi
+                for did in dids:
+                    d = self.defs[did]
+                    v = d.xvalue if d.xvalue is not None else ast.Name(
+                        id=(nm if d.kind == "param" else f"{nm}@{did}"), ctx=ast.Load())
 
-                    class T(ast.NodeTransformer):
+                    class S(ast.NodeTransformer):
                         def visit_Name(self, n):
-                            if n.id == nm and isinstance(n.ctx, ast.Load):
-                                return copy.deepcopy(v)
-                            return n
-
-                        def visit_Lambda(self, n):
-                            return n
-                    new.append(T().visit(copy.deepcopy(o)))
+                            return copy.deepcopy(v) if n.id == tok else n
+                    new.append(S().visit(copy.deepcopy(o)))
                     if len(new) >= limit:
                         break
                 if len(new) >= limit:
                     break
             outs = new
-        # dedupe
+            if not changed:
+                break
         seen, res = set(), []
         for o in outs:
             u = unparse(o)
@@ -316,30 +317,43 @@ class FunctionFlow:
         return [self.defs[i] for i in sorted(st.defs.get(name, ()))]
 
     # ------------------------------------------------------------ state transformers
-    def _kill(self, st: State, name: str) -> State:
-        """Kill facts mentioning `name` (a local or a dotted chain) or anything rooted under it."""
-        pref = name + "."
-        keep = []
-        changed = False
+    def _kill(self, st: State, name: str, texts: tuple = ()) -> State:
+        """Kill facts about a stored attribute chain / mutated container.  Plain locals are versioned and need
+        no kill.  `texts`: additional renderings (expanded / versioned) of the stored expression."""
+        if "." not in name and not texts:
+            return st
+        keys = {name} | set(texts)
+        keep, changed = [], False
         for f in st.facts:
-            hit = False
-            for r in f.roots:
-                if r == name or r.startswith(pref):
-                    hit = True
-                    break
+            hit = any(k in f.xkey or k in f.key for k in keys)
             if hit:
                 changed = True
-                if f.kind == "call":
-                    # the call still happened; its arguments are no longer nameable
+                if f.kind == "call" and isinstance(f.node, ast.Call):
                     g = Fact("call", ast.Call(func=f.node.func, args=[], keywords=[]), True,
-                             ast.Call(func=f.xnode.func, args=[], keywords=[]), f.targets, f.line)
-                    if not any(r == name or r.startswith(pref) for r in g.roots):
+                             ast.Call(func=f.xnode.func, args=[], keywords=[]) if isinstance(f.xnode, ast.Call) else None,
+                             f.targets, f.line)
+                    if not any(k in g.xkey for k in keys):
                         keep.append(g)
             else:
                 keep.append(f)
         if changed:
             st = State(frozenset(keep), st.locks, st.defs)
         return st
+
+    def _texts(self, expr: ast.AST, st: State) -> tuple:
+        e = copy.deepcopy(expr)
+        for n in ast.walk(e):
+            if hasattr(n, "ctx"):
+                n.ctx = ast.Load()
+        out = {unparse(e), unparse(self.expand(e, st))}
+        # head-versioned rendering (entry@5.ls_pending)
+        class H(ast.NodeTransformer):
+            def __init__(s2, flow):
+                s2.flow = flow
+            def visit_Name(s2, n):
+                return ast.Name(id=s2.flow.token(n.id, st), ctx=ast.Load()) if n.id in st.defs else n
+        out.add(unparse(H(self).visit(copy.deepcopy(e))))
+        return tuple(out)
 
     def _assign_target(self, st: State, tgt: ast.AST, value: Optional[ast.AST], stmt, kind="assign", extra=None) -> State:
         if isinstance(tgt, ast.Name):
@@ -359,7 +373,7 @@ class FunctionFlow:
             # container element store: kills facts about the container expression
             d = dotted(tgt.value)
             if d:
-                st = self._kill(st, d)
+                st = self._kill(st, d, self._texts(tgt.value, st))
                 dd = self._newdef(d + "[]", stmt, value, "substore", extra=tgt)
                 st = st.copy()
                 st.defs[d + "[]"] = st.defs.get(d + "[]", frozenset()) | frozenset([dd.did])
@@ -369,11 +383,12 @@ class FunctionFlow:
         else:
             return st
         d = self._newdef(name, stmt, value, kind, extra)
-        if value is not None and kind == "assign":
+        if value is not None and kind in ("assign", "aug"):
             xv = self.expand(value, st)
             d.xvalue = xv
-            d.xdeps = {r: st.defs.get(r, frozenset()) for r in roots_of(xv)}
-        st = self._kill(st, name)
+            d.xdeps = {r: st.defs.get(r, frozenset()) for r in roots_of(xv) if "." in r}
+        if "." in name:
+            st = self._kill(st, name, self._texts(tgt, st))
         st = st.copy()
         st.defs[name] = frozenset([d.did])
         # storing to a.b invalidates recorded defs of deeper chains a.b.c
@@ -464,7 +479,8 @@ class FunctionFlow:
         names = self.assigned_names(stmts)
         st = st.copy()
         for n in names:
-            st = self._kill(st, n)
+            if "." in n:
+                st = self._kill(st, n)
             d = self._newdef(n, stmt, None, "opaque")
             st.defs[n] = st.defs.get(n, frozenset()) | frozenset([d.did])
         return st
@@ -611,12 +627,13 @@ class FunctionFlow:
                     # facts established by the finally block also hold afterwards
                     out = State(out.facts | (fin_end.facts - fin_in.facts), out.locks, join([out, fin_end]).defs)
                     for n in self.assigned_names(s.finalbody):
-                        out = self._kill(out, n)
+                        if "." in n:
+                            out = self._kill(out, n)
             return out
         if isinstance(s, ast.Delete):
             for t in s.targets:
                 if isinstance(t, ast.Subscript) and dotted(t.value):
-                    st = self._kill(st, dotted(t.value))
+                    st = self._kill(st, dotted(t.value), self._texts(t.value, st))
                     # must-fact: the item was removed (synthetic call `__delitem__(container, key)`)
                     key = t.slice
                     syn = ast.Call(func=ast.Name(id="__delitem__", ctx=ast.Load()),
@@ -645,7 +662,8 @@ class FunctionFlow:
         if isinstance(expr, ast.Call) and isinstance(expr.func, ast.Attribute) and expr.func.attr in self.MUTATORS:
             d = dotted(expr.func.value)
             if d:
-                keep = frozenset(f for f in st.facts if not (f.kind == "cond" and (d in f.roots)))
+                keys = set(self._texts(expr.func.value, st)) | {d}
+                keep = frozenset(f for f in st.facts if not (f.kind == "cond" and any(k in f.xkey for k in keys)))
                 st = State(keep, st.locks, st.defs)
         return st
 
@@ -784,11 +802,9 @@ class Flows:
         for i, a in enumerate(call.args):
             if i + offset < len(params):
                 amap[unparse(cf.expand(a, st))] = params[i + offset]
-                amap[unparse(a)] = params[i + offset]
         for kw in call.keywords:
             if kw.arg:
                 amap[unparse(cf.expand(kw.value, st))] = kw.arg
-                amap[unparse(kw.value)] = kw.arg
         out = set()
         PH = "__p_"
 
@@ -820,7 +836,7 @@ class Flows:
                     continue
                 if head == "self" and same_self:
                     continue
-                if head not in caller_locals and self.prog.resolve_name(caller.module, head) is not None:
+                if "@" not in head and head not in caller_locals and self.prog.resolve_name(caller.module, head) is not None:
                     continue   # module-level constant / class / enum
                 ok = False
                 break
